@@ -14,10 +14,39 @@ def cases(rng, tier):
     return ec.gen_cases(rng, tier) + engine_cases_resp.gen(rng, tier)
 
 
+def impl_batch(cases):
+    """the shared (cached, pooled) engine runs, except the cases under real preprocessors / call_returns_result, which
+    need the extended driver (harness/drivers/engine_driver_resp.py) and are cheap: run here, one after the other"""
+    from harness.drivers import engine_driver_resp
+    import json
+    plain = [c for c in cases if not c.get("resp_driver")]
+    outs = iter(ec.impl_batch(plain))
+    res = []
+    for c in cases:
+        if c.get("resp_driver"):
+            try:
+                o = engine_driver_resp.run_case(c)
+            except Exception as e:  # pragma: no cover
+                o = {"errors": ["resp driver: %r" % (e,)], "sched": [], "obs": [], "tapes": {}, "msgs": [], "devcalls": []}
+            res.append(json.loads(json.dumps(o, default=str)))
+        else:
+            res.append(next(outs))
+    return res
+
+
+def problems(case, obs):
+    if case.get("preproc"):
+        # the plan of each call sits under engine-level preprocessors: it does not talk to the engine directly
+        user = lambda pid: pid < 1000 or pid >= 2000      # noqa: E731
+        return (rt.check_responses(obs, skip=lambda pid: pid < 1000) + rt.check_uids(obs)
+                + rt.check_wrapped(obs, inner=user) + rt.check_results(obs))
+    return rt.check_responses(obs) + rt.check_uids(obs) + rt.check_wrapped(obs) + rt.check_results(obs)
+
+
 def oracle(case, obs):
     if obs.get("errors"):
         return "driver: " + str(obs["errors"][0])[:200]
-    bad = rt.check_responses(obs) + rt.check_uids(obs)
+    bad = problems(case, obs)
     if bad:
         return "; ".join(m for _, m in bad[:3])[:600]
     return None
@@ -28,10 +57,7 @@ def finding(case, obs):
     None as the response its plan receives.  Anything else is outside the class."""
     if obs.get("errors"):
         return None
-    bad = rt.check_responses(obs)
-    if rt.check_uids(obs):
-        return None
-    kinds = {k for k, _ in bad}
+    kinds = {k for k, _ in problems(case, obs)}
     if kinds != {"a"}:
         return None
     return "a"
